@@ -277,3 +277,17 @@ pub fn projr(x: f64, dmax: i64) -> Value {
 pub fn projrs(x: &[f64], dmax: i64) -> Value {
     Value::Array(x.iter().map(|v| projr(*v, dmax)).collect())
 }
+
+/// Vector-wise projection: residual exponents are relative to the largest magnitude of the vector
+/// (an entry whose exact value is 0 is computed as ~1e-16 * scale and must still rationalise to 0).
+pub fn projrs_scaled(x: &[f64], dmax: i64) -> Value {
+    let scale = x.iter().fold(0.0f64, |m, v| if v.is_finite() { m.max(v.abs()) } else { m }).max(1e-300);
+    Value::Array(x.iter().map(|v| {
+        if !v.is_finite() { return projr(*v, dmax); }
+        if *v == v.trunc() && v.abs() < 1e9 { return json!({"p": *v as i64, "q": 1, "e": -999}); }
+        let (p, q, err) = rat(*v, dmax);
+        let rel = err / v.abs().max(scale);
+        let e = if err == 0.0 { -999 } else { rel.log2().ceil() as i64 };
+        json!({"p": p, "q": q, "e": e})
+    }).collect())
+}
